@@ -406,10 +406,14 @@ impl Mempool {
         }
 
         self.routing_work_in_mempool = 0;
+        self.utxo_map.clear();
 
-        // add routing work from remaining tx
+        // add routing work and input reservations from remaining tx
         for (_, transaction) in &self.transactions {
             self.routing_work_in_mempool += transaction.total_work_for_me;
+            for input in transaction.from.iter() {
+                self.utxo_map.insert(input.utxoset_key, 1);
+            }
         }
     }
 
